@@ -164,7 +164,7 @@ func runECDSA(c ECDSACase) ev.Outcome {
 	return ev.Outcome{NonTrivial: !want || c.Mut != "valid", Classes: classes}
 }
 
-var ecdsaMuts = []string{"valid", "valid", "high-s", "msg+1", "msg=0", "r+1", "s+1", "r=0", "s=0", "r=n", "s=n", "swap-rs", "Q-other", "Q-neg", "Q=G", "Q=inf", "x(R)>=n", "r=x(R)-not-reduced", "R=inf"}
+var ecdsaMuts = []string{"valid", "valid", "high-s", "msg+1", "msg=0", "r+1", "r-flip-bit0", "r-flip-bit0", "r-flip-bit", "r-flip-bit", "s-flip-bit", "m-flip-bit", "s+1", "r=0", "s=0", "r=n", "s=n", "swap-rs", "Q-other", "Q-neg", "Q=G", "Q=inf", "x(R)>=n", "r=x(R)-not-reduced", "R=inf"}
 
 func genECDSA(names []string) *rapid.Generator[ECDSACase] {
 	return rapid.Custom(func(t *rapid.T) ECDSACase {
@@ -195,6 +195,17 @@ func genECDSA(names []string) *rapid.Generator[ECDSACase] {
 			r.Add(r, one).Mod(r, n)
 		case "s+1":
 			s.Add(s, one).Mod(s, n)
+		case "r-flip-bit0":
+			r.Xor(r, one)
+		case "r-flip-bit", "s-flip-bit", "m-flip-bit":
+			// a single flipped bit (any position, the top ones included) must be rejected
+			i := rapid.SampledFrom([]int{1, 2, 63, 64, 65, 127, 128, n.BitLen() - 2, n.BitLen() - 1, rapid.IntRange(0, n.BitLen()-1).Draw(t, "bit")}).Draw(t, "biti")
+			x := map[string]*big.Int{"r-flip-bit": r, "s-flip-bit": s, "m-flip-bit": m}[c.Mut]
+			x.Xor(x, new(big.Int).Lsh(one, uint(i)))
+			if x.Cmp(n) >= 0 {
+				x.Xor(x, new(big.Int).Lsh(one, uint(i)))
+				x.Xor(x, one)
+			}
 		case "r=0":
 			r.SetInt64(0)
 		case "s=0":
